@@ -41,6 +41,23 @@ type c20Args struct {
 	IDs   []int64    `json:"ids,omitempty"`
 	BBox  [4]float64 `json:"bbox,omitempty"` // left (min lon), bottom (min lat), right (max lon), top (max lat)
 	Q     string     `json:"q,omitempty"`
+	// URLLen > 0: the id list / search string is materialised at call time so that the
+	// documented request URL (configured base URL + table path + query, options not counted)
+	// is exactly this many bytes long.
+	URLLen int `json:"url_len,omitempty"`
+}
+
+// c20URLLens are request-URL lengths on both sides of limits commonly met in HTTP stacks
+// (2 KiB, 4 KiB, Apache's 8190-byte request line, 8 KiB, 16 KiB, 64 KiB). How long a URL a
+// server accepts is the server's business; the fake server takes up to 1 MiB of header.
+var c20URLLens = []int{2048, 4096, 8190, 8191, 8192, 16384, 16385, 65536, 65537}
+
+func c20LenArgs() []c20Args {
+	var out []c20Args
+	for _, n := range c20URLLens {
+		out = append(out, c20Args{Label: fmt.Sprintf("url-%d", n), URLLen: n})
+	}
+	return out
 }
 
 type c20NoteOpt struct {
@@ -75,10 +92,15 @@ var c20IDLists = func() []c20Args {
 	for i := range long {
 		long[i] = 1<<40 + int64(i)*977
 	}
-	return []c20Args{
+	ten := make([]int64, 10)
+	for i := range ten {
+		ten[i] = 1_000_000_007 + int64(i)*7919
+	}
+	return append([]c20Args{
 		{Label: "[1,2]", IDs: []int64{1, 2}}, {Label: "[7]", IDs: []int64{7}}, {Label: "[]", IDs: []int64{}},
 		{Label: "unsorted", IDs: []int64{30, 10, 20}}, {Label: "dup", IDs: []int64{5, 5, 6}}, {Label: "60 big", IDs: long},
-	}
+		{Label: "10 ten-digit", IDs: ten},
+	}, c20LenArgs()...)
 }()
 
 var c20BBoxes = []c20Args{
@@ -90,10 +112,10 @@ var c20BBoxes = []c20Args{
 	{Label: "negative 7 decimals", BBox: [4]float64{-77.1234567, -12.0000001, -77.0000003, -11.9999999}},
 }
 
-var c20Queries = []c20Args{
+var c20Queries = append([]c20Args{
 	{Label: "word", Q: "asdf"}, {Label: "empty", Q: ""}, {Label: "space", Q: "two words"}, {Label: "amp-eq", Q: "a&b=c"},
 	{Label: "pct-plus-hash", Q: "50%+1 #tag?"}, {Label: "unicode", Q: "日本語 ñ 😀"}, {Label: "xml", Q: `it's <x> "q"`}, {Label: "punct", Q: "a/b;c,d"},
-}
+}, c20LenArgs()...)
 
 func c20Time(s string) *time.Time {
 	t, err := time.Parse(time.RFC3339Nano, s)
@@ -697,6 +719,49 @@ type c20Env struct {
 	seed    uint64
 	n       int
 	restore func()
+	baseURL string // the base URL as configured (the documented default when left empty)
+}
+
+// materialise turns a URL-length argument into a concrete id list / search string, computed
+// from the documented URL shape of the endpoint table (never from what the library sends).
+func (e *c20Env) materialise(ep *c20EP, a c20Args) c20Args {
+	if a.URLLen <= 0 {
+		return a
+	}
+	switch {
+	case ep.multi:
+		// <base>/<name>?<name>=id,id,...   ten-digit ids cost 11 bytes each but the first;
+		// the remainder is taken up by eleven-digit ids.
+		avail := a.URLLen - len(e.baseURL) - len(ep.path(a)) - 1 - len(ep.name) - 1
+		n := (avail + 1) / 11
+		if n < 1 {
+			n = 1
+		}
+		extra := avail - (11*n - 1)
+		a.IDs = make([]int64, n)
+		for i := range a.IDs {
+			a.IDs[i] = 1_000_000_007 + int64(i)*7919
+			if i < extra {
+				a.IDs[i] += 10_000_000_000
+			}
+		}
+	default:
+		// <base>/notes/search?q=<text>   letters, digits and '+'-encoded spaces: one byte each
+		avail := a.URLLen - len(e.baseURL) - len(ep.path(a)) - len("?q=")
+		if avail < 1 {
+			avail = 1
+		}
+		var sb strings.Builder
+		for i := 0; i < avail; i++ {
+			if i%9 == 8 {
+				sb.WriteByte(' ')
+			} else {
+				sb.WriteByte("abcdefghijklmnopqrstuvwxyz0123456789"[(i*7)%36])
+			}
+		}
+		a.Q = sb.String()
+	}
+	return a
 }
 
 func c20NewEnv(res *fw.Result, base c20Base, via string, seed uint64) *c20Env {
@@ -705,8 +770,10 @@ func c20NewEnv(res *fw.Result, base c20Base, via string, seed uint64) *c20Env {
 	e.lim = &srv.APILimiter{Log: e.log}
 	client := e.api.Client()
 	baseURL := ""
+	e.baseURL = "http://api.openstreetmap.org/api/0.6"
 	if !base.defHost {
 		baseURL = e.api.URL() + base.suffix
+		e.baseURL = baseURL
 	}
 	dd := osmapi.DefaultDatasource
 	saved := *dd
@@ -813,6 +880,7 @@ type c20Obs struct {
 func (e *c20Env) call(ep *c20EP, a c20Args, o c20Opts, limMode string, rs c20Resp) {
 	res := e.res
 	e.n++
+	a = e.materialise(ep, a)
 	r := gen.New(e.seed, fmt.Sprintf("c20/%s/%d", ep.name, e.n))
 	noise := r.Bool()
 	key := func(class string) string { return "C20/" + ep.name + "/" + class }
@@ -866,7 +934,24 @@ func (e *c20Env) call(ep *c20EP, a c20Args, o c20Opts, limMode string, rs c20Res
 
 	obs := c20Obs{Endpoint: ep.name, Base: e.base.name, Via: e.via, Args: a, Opts: o, Limiter: limMode, Resp: rs, Requests: reqs, Waits: waits, Doc: apixml.Describe(doc)}
 	if len(obs.Args.IDs) > 8 {
+		obs.Args.Label += fmt.Sprintf(" (%d ids, first 8 shown)", len(obs.Args.IDs))
 		obs.Args.IDs = obs.Args.IDs[:8]
+	}
+	if len(obs.Args.Q) > 120 {
+		obs.Args.Label += fmt.Sprintf(" (q of %d bytes, head shown)", len(obs.Args.Q))
+		obs.Args.Q = obs.Args.Q[:120]
+	}
+	obs.Requests = append([]srv.APIRequest(nil), reqs...)
+	for i := range obs.Requests {
+		if q := obs.Requests[i].RawQuery; len(q) > 300 {
+			obs.Requests[i].RawQuery = fmt.Sprintf("%s… (%d bytes)", q[:300], len(q))
+		}
+	}
+	if a.URLLen > 0 {
+		res.Add("calls_url_length_ladder", 1)
+		for _, rq := range reqs {
+			res.SetMax("request_uri_bytes", int64(len(rq.RawPath)+1+len(rq.RawQuery)))
+		}
 	}
 	if err != nil {
 		obs.Err, obs.ErrTypes = err.Error(), c20ErrTypes(err)
@@ -877,7 +962,11 @@ func (e *c20Env) call(ep *c20EP, a c20Args, o c20Opts, limMode string, rs c20Res
 	viol := func(k, format string, args ...any) {
 		res.Violate(k, fmt.Sprintf(format, args...), obs)
 	}
-	res.Eval(fmt.Sprintf("%s|%s|%s|%s|%s|%d/%s/%d", ep.name, o.Label, e.base.name, e.via, limMode, rs.Status, rs.Body, rs.Size))
+	sig := fmt.Sprintf("%s|%s|%s|%s|%s|%d/%s/%d", ep.name, o.Label, e.base.name, e.via, limMode, rs.Status, rs.Body, rs.Size)
+	if a.URLLen > 0 {
+		sig += "|" + a.Label
+	}
+	res.Eval(sig)
 
 	dataWithError := func(k string) {
 		if err != nil && !c20IsEmpty(got) {
@@ -1099,6 +1188,21 @@ func c20Exec(c fw.Case) *fw.Result {
 				k++
 			}
 		}
+	case "ladder":
+		// request-URL length ladder: every length argument, limiter absent and present, against
+		// 200 answers (one element, five elements) and a genuine 414 from the server
+		for a := range ep.args {
+			if ep.args[a].URLLen == 0 {
+				continue
+			}
+			for l := 0; l < 2; l++ {
+				for r, rs := range resps {
+					if (rs.Status == 200 && rs.Body == "xml" && (rs.Size == 1 || rs.Size == 5)) || (rs.Status == 414 && rs.Body == "xml") {
+						do(c20Combo{a, l, l, r}) // options: none, then the first non-empty valid set
+					}
+				}
+			}
+		}
 	case "slice":
 		all := c20Product(ep)
 		r := gen.New(c.Seed, "c20slice")
@@ -1131,6 +1235,17 @@ func c20Cases(tier string, seed uint64) []fw.Case {
 	for i, ep := range eps {
 		cs = append(cs, mk("sweep", ep.name, c20Bases[i%len(c20Bases)].name, c20Vias[i%len(c20Vias)], i, 0))
 	}
+	// ... the request-URL length ladder for every call whose URL grows with its arguments
+	k := 0
+	for _, ep := range eps {
+		for _, a := range ep.args {
+			if a.URLLen > 0 {
+				cs = append(cs, mk("ladder", ep.name, c20Bases[k%len(c20Bases)].name, c20Vias[k%len(c20Vias)], k, 0))
+				k++
+				break
+			}
+		}
+	}
 	// ... plus a PRNG-chosen slice of the full product
 	r := gen.New(seed, "c20slices")
 	for i := 0; i < 60; i++ {
@@ -1147,10 +1262,10 @@ func init() {
 	fw.Register(&fw.Prop{
 		ID:    "C20",
 		Level: "exploration",
-		Rule: "product of endpoint (26 functions) x argument (ids incl. 0, 2^32+7, 2^53+1, MaxInt64; id/version pairs; id lists empty/single/unsorted/duplicate/60 long; six bounding boxes incl. 7-decimal ones; eight search strings with URL/XML specials and Unicode) " +
+		Rule: "product of endpoint (26 functions) x argument (ids incl. 0, 2^32+7, 2^53+1, MaxInt64; id/version pairs; id lists empty/single/unsorted/duplicate/60 long/10 ten-digit; six bounding boxes incl. 7-decimal ones; eight search strings with URL/XML specials and Unicode; for the multi-fetch calls and the notes search also id lists / search strings materialised so that the documented request URL is exactly 2048, 4096, 8190, 8191, 8192, 16384, 16385, 65536, 65537 bytes long) " +
 			"x option set (none / At in UTC, in a zone, with nanoseconds; seven valid and two invalid notes option lists) x base URL (server root, /api/0.6, deep prefix, library default host, trailing slash) x access path (Datasource with client, Datasource falling back to DefaultDatasource.Client, package-level function) " +
 			"x limiter (absent, present, failing) x response (200 with 0/1/2/5 elements, 200 truncated, 204, and 400 403 404 409 410 414 429 500 503 each with an XML decoy body and a text body). " +
-			"thorough enumerates the whole product (one case per endpoint x base x access path, one httptest server per case); quick runs one sweep per endpoint over every response and limiter mode plus 60 PRNG-chosen slices of 32 calls. " +
+			"thorough enumerates the whole product (one case per endpoint x base x access path, one httptest server per case); quick runs one sweep per endpoint over every response and limiter mode, one URL-length ladder per URL-growing endpoint (every length x limiter absent/present x 200 with 1 and 5 elements and a served 414) plus 60 PRNG-chosen slices of 32 calls. " +
 			"A signature is endpoint|options|base|access|limiter|status/body/size; distinct_nontrivial counts distinct signatures.",
 		Assumptions: []string{
 			"query strings are compared as parsed parameter sets (own parser); a trailing '?' or '&' and parameter order are insignificant; multi-fetch id lists are compared as sets",
